@@ -383,6 +383,7 @@ def gen_reconcile(ch):
         "clock": _clock_spec(ch),
         "entropy": ch.choose("entropy", 2**31 - 1),
         "eval_range": ch.flip("eval_range", 0.3),
+        "refine": ch.flip("refine_earlier_output", 0.3),
     }
     if not (spec["unit_cost_bounds"] or spec["baseline_bounds"] or spec["outcome_bounds"] or spec["capacity_bounds"]):
         spec["unit_cost_bounds"] = 0.2
@@ -461,6 +462,8 @@ def execute(spec, fault, bump):
         orig_process = amodel.Model.process
 
         def process_wrapper(self):
+            if not state.get("armed", True):
+                return orig_process(self)
             state["n_process"] += 1
             if fault is not None and state["n_process"] == fault[0]:
                 state["fault_fired"] = True
@@ -713,6 +716,24 @@ def execute(spec, fault, bump):
                 result = at.optimize(P, optimization, parset, progset, instructions, optim_args={"randseed": spec["randseed"]})
 
             else:  # reconcile
+                if spec.get("refine"):
+                    # the caller's program set is itself the output of an earlier reconciliation in the same year
+                    # (refining step by step); the earlier stage runs un-faulted under the simulated clock
+                    state["armed"] = False
+                    pre_obj = arec._objective
+
+                    def pre_wrapper(x, *a, **k):
+                        try:
+                            return pre_obj(x, *a, **k)
+                        finally:
+                            clock.on_evaluation()
+
+                    seams.patch(arec, "_objective", pre_wrapper)
+                    progset = at.reconcile(P, parset, progset, spec["year"], max_time=0.02, unit_cost_bounds=0.3)[0]
+                    seams.patch(arec, "_objective", pre_obj)
+                    state["armed"] = True
+                    if fault is None:
+                        bump("probe:reconcile_refines_earlier_output")
                 caller = {"parset": parset, "progset": progset, "settings": P.settings, "data": P.data, "framework": P.framework, "project_progsets": P.progsets, "tvec": P.settings.tvec}
                 snap = snapshot(caller)
                 orig_obj = arec._objective
